@@ -1876,6 +1876,63 @@ def epochkey_pairs(ctx, rng, variant='current', n_pairs=30):
 
 
 
+# ------------------------------------------------------------------------------------------ parallelize (C17)
+def _pz_unit(x):
+    """the unit of work of `parallel_probe` (module level: the pool pickles it by reference).  The sleep makes the units
+    finish OUT of data order (0.00 - 0.04 s, not monotone in x)."""
+    import time
+    time.sleep(((x * 7919) % 5) * 0.01)
+    return x
+
+
+def parallel_probe(ctx, rng, variant='current'):
+    """the REAL `phasegen.utils.parallelize` on a shuffled `data = 0 … k-1` with random `parallelize` / `pbar` flags against the
+    Lean model of the helper (PGModel/Parallel.lean, driver `parallel`, unit function `id`: the answer is the ORDER in which the
+    results come back).  The model is asked for the identity schedule and for a random one (theorem
+    `parallelize_schedule_irrelevant`: every schedule gives the data order; which schedule the operating system chose is not
+    observable).  Independently of the model the result must equal `data` (`parallelize:order`).
+    Must run in the MAIN process: a pool cannot be created inside a daemonic pool worker."""
+    import io, contextlib, gc
+    from phasegen.utils import parallelize
+    k = rng.randint(2, 8)
+    data = list(range(k))
+    rng.shuffle(data)
+    if rng.random() < 0.15:
+        data = data[:1]                     # a single unit is never handed to a pool
+    par, pbar = rng.random() < 0.75, rng.random() < 0.5
+    err = io.StringIO()
+    with contextlib.redirect_stderr(err):   # tqdm writes the bar to stderr
+        res = parallelize(_pz_unit, data, parallelize=par, pbar=pbar, desc='probe')
+    gc.collect()                            # the helper leaves its Pool to the garbage collector
+    got = [int(round(float(x))) for x in np.asarray(res).ravel()]
+    ctx.count('parallel-calls'); ctx.count(f'parallel:par={int(par)}:pbar={int(pbar)}:{"one" if len(data) == 1 else "many"}')
+    if pbar and not err.getvalue():
+        ctx.count('parallel:pbar-silent')
+    tok = lambda xs: ','.join(str(x) for x in xs) if xs else '-'
+    ident = list(range(len(data)))
+    sched = list(ident)
+    rng.shuffle(sched)
+    lines = [f'parallel {variant} {int(par)} {int(pbar)} {tok(data)} {tok(sc)}' for sc in (ident, sched)]
+    models = [C.driver().ask(line) for line in lines]
+    if got != data:
+        ctx.violation('parallelize:order', mode='parallelize', data=data, parallelize=par, pbar=pbar, expected=data, observed=got,
+                      oracle='list(map(func, data)): the results of utils.parallelize come back in the order of the data')
+    for line, model in zip(lines, models):
+        if model != tok(got):
+            ctx.corr_break('parallel', request=line, model=model, real=tok(got), data=data, parallelize=par, pbar=pbar)
+    return lines[1]
+
+
+def run_parallel_probe(ctx, n=12):
+    """in-process loop (see `parallel_probe`); called at the end of props/c17.py `run`"""
+    rng = random.Random(f'{ctx.seed}-corr-parallel')
+    variant = os.environ.get('VERIF_PARALLEL_VARIANT', 'current')
+    line = None
+    for i in range(n):
+        line = parallel_probe(ctx, rng, variant=variant)
+        ctx.case(dict(kind='parallelize', nth=i, request=line), f'parallelize-{i}-{line}')
+
+
 # ------------------------------------------------------------------------------------------ pmap entry points
 def one_memo(ctx, i):
     rng = random.Random(f'{ctx.seed}-corr-memo-{i}')
